@@ -22,7 +22,7 @@ import (
 )
 
 var rec = ev.New("C10",
-	"cases: generated table contents (<=12 rows over three table structs) and 2-10 concurrent Query/QueryRow calls with filters over 0-3 columns taken from existing rows or fresh values, in several Go representations (exact field type, int/int64/int32 variants, named types, pointers, nil, typed nil pointers); each call runs alone without batching and concurrently under one batch.WithBatching context against the same model database; results (rows as multiset, or the QueryRow error class) must be identical; non-trivial = >=2 calls with different filters were served by one SELECT; distinct = hash of (rows, calls)",
+	"cases: generated table contents (<=12 rows over three table structs) and 2-10 concurrent Query/QueryRow/FullScanQuery calls (a quarter with SelectOptions: LIMIT, ORDER BY, extra WHERE, FOR UPDATE, hint only) with filters over 0-3 columns taken from existing rows or fresh values, in several Go representations (exact field type, int/int64/int32 variants, named types, pointers, nil, typed nil pointers); each call runs alone without batching and concurrently under one batch.WithBatching context against the same model database; results (rows as multiset, or the QueryRow error class) must be identical (LIMIT without ORDER BY: as many rows, all matching); non-trivial = >=2 calls with different filters were served by one SELECT; distinct = hash of (rows, calls)",
 	"the model database defines 'the rows the database returns' (DESIGN 3.4); only same-type comparisons are generated")
 
 func TestMain(m *testing.M) { code := m.Run(); rec.Flush(); os.Exit(code) }
@@ -31,6 +31,19 @@ type call struct {
 	row    bool // QueryRow
 	filter sqlgen.Filter
 	descr  string
+	// options (nil for most calls): LIMIT, ORDER BY, an extra WHERE clause, FOR UPDATE, or
+	// only the AllowNoIndex hint (FullScanQuery)
+	options  *sqlgen.SelectOptions
+	fullScan bool
+}
+
+func (c call) opts() *sqlgen.SelectOptions {
+	if c.options == nil {
+		return nil
+	}
+	cp := *c.options
+	cp.Values = append([]interface{}(nil), c.options.Values...)
+	return &cp
 }
 
 type outcome struct {
@@ -58,14 +71,19 @@ func runCall(ctx context.Context, db *sqlgen.DB, table string, c call) outcome {
 	typ := sw.Types[table]
 	if c.row {
 		res := reflect.New(reflect.PtrTo(typ))
-		err := db.QueryRow(ctx, res.Interface(), c.filter, nil)
+		err := db.QueryRow(ctx, res.Interface(), c.filter, c.opts())
 		if err != nil {
 			return outcome{err: classify(err)}
 		}
 		return outcome{rows: []string{sw.Describe(res.Elem().Interface())}}
 	}
 	res := reflect.New(reflect.SliceOf(reflect.PtrTo(typ)))
-	err := db.Query(ctx, res.Interface(), c.filter, nil)
+	var err error
+	if c.fullScan {
+		err = db.FullScanQuery(ctx, res.Interface(), c.filter, c.opts())
+	} else {
+		err = db.Query(ctx, res.Interface(), c.filter, c.opts())
+	}
 	if err != nil {
 		return outcome{err: classify(err)}
 	}
@@ -73,7 +91,9 @@ func runCall(ctx context.Context, db *sqlgen.DB, table string, c call) outcome {
 	for i := 0; i < res.Elem().Len(); i++ {
 		out = append(out, sw.Describe(res.Elem().Index(i).Interface()))
 	}
-	sort.Strings(out)
+	if c.options == nil || c.options.OrderBy == "" {
+		sort.Strings(out)
+	}
 	return outcome{rows: out}
 }
 
@@ -180,6 +200,11 @@ func gen(t *rapid.T) built {
 			// an equal filter repeated
 			prev := b.calls[rapid.IntRange(0, i-1).Draw(t, "prev")]
 			c.filter, c.descr = prev.filter, prev.descr
+			if c.row == prev.row {
+				c.options, c.fullScan = prev.options, prev.fullScan
+			} else if i := strings.Index(c.descr, "+opts{"); i >= 0 {
+				c.descr = strings.TrimPrefix(c.descr[:i], "FullScan")
+			}
 			b.calls = append(b.calls, c)
 			continue
 		}
@@ -200,6 +225,46 @@ func gen(t *rapid.T) built {
 		}
 		sort.Strings(parts)
 		c.descr = fmt.Sprintf("%s{%s}", map[bool]string{true: "QueryRow", false: "Query"}[c.row], strings.Join(parts, ","))
+		if rapid.IntRange(0, 3).Draw(t, "hasopts") == 0 {
+			pk := map[string]string{"row_a": "id", "row_b": "id", "row_c": "key"}[b.table]
+			o := &sqlgen.SelectOptions{}
+			switch rapid.IntRange(0, 5).Draw(t, "optkind") {
+			case 0: // only a hint: the options carry nothing that changes the result
+				if c.row {
+					o.AllowNoIndex = true
+				} else {
+					c.fullScan = rapid.Bool().Draw(t, "fullscan")
+					o.AllowNoIndex = true
+					if c.fullScan && rapid.Bool().Draw(t, "niloptions") {
+						o = nil
+					}
+				}
+			case 1:
+				o.Limit = rapid.IntRange(1, 3).Draw(t, "limit")
+			case 2:
+				o.Limit = rapid.IntRange(1, 3).Draw(t, "limit")
+				o.OrderBy = pk + rapid.SampledFrom([]string{"", " DESC"}).Draw(t, "desc")
+			case 3:
+				o.OrderBy = pk + rapid.SampledFrom([]string{"", " DESC"}).Draw(t, "desc")
+			case 4:
+				// an extra clause of the caller
+				o.Where = pk + " IN (?, ?)"
+				if b.table == "row_c" {
+					o.Values = []interface{}{"k1", fmt.Sprintf("k%d", rapid.IntRange(1, 6).Draw(t, "k"))}
+				} else {
+					o.Values = []interface{}{int64(1), int64(rapid.IntRange(1, 6).Draw(t, "k"))}
+				}
+			case 5:
+				o.ForUpdate = true
+			}
+			c.options = o
+			if o != nil {
+				c.descr += fmt.Sprintf("+opts{where=%q values=%v orderby=%q limit=%d forupdate=%v noindex=%v}", o.Where, o.Values, o.OrderBy, o.Limit, o.ForUpdate, o.AllowNoIndex)
+			}
+			if c.fullScan {
+				c.descr = "FullScan" + c.descr
+			}
+		}
 		b.calls = append(b.calls, c)
 	}
 	return b
@@ -305,6 +370,30 @@ func check(b built) (nt bool, labels []string, sig string, err error) {
 			if !rv.IsValid() || (rv.Kind() == reflect.Ptr && rv.IsNil()) {
 				nullFilter = true
 			}
+		}
+		if c.options != nil && c.options.Limit > 0 && c.options.OrderBy == "" {
+			// LIMIT without ORDER BY: which of the matching rows come back is the database's
+			// choice; the batched call must return as many, all of them matching
+			full := c
+			o := *c.options
+			o.Limit = 0
+			full.options, full.row = &o, false
+			all := runCall(ctx, db, b.table, full)
+			in := map[string]int{}
+			for _, r := range all.rows {
+				in[r]++
+			}
+			ok := alone[i].err == batched[i].err && len(alone[i].rows) == len(batched[i].rows)
+			for _, r := range batched[i].rows {
+				in[r]--
+				if in[r] < 0 {
+					ok = false
+				}
+			}
+			if !ok {
+				return false, nil, "differs", fmt.Errorf("call %d %s on %s with %d rows:\n alone   %s\n batched %s\n all rows matching without the limit: %v\n all calls: %v", i, c.descr, b.table, len(b.rows), alone[i], batched[i], all.rows, descrs(b.calls))
+			}
+			continue
 		}
 		if alone[i].String() != batched[i].String() {
 			return false, nil, "differs", fmt.Errorf("call %d %s on %s with %d rows:\n alone   %s\n batched %s\n all calls: %v", i, c.descr, b.table, len(b.rows), alone[i], batched[i], descrs(b.calls))
